@@ -110,6 +110,40 @@ func AssembleTyped(na datamodel.NodeAssembler, ts *rs.TypeSystem, t *rs.Type, v 
 }
 
 func assembleTyped(na datamodel.NodeAssembler, ts *rs.TypeSystem, t *rs.Type, v model.Val) error {
+	return assembleTypedR(na, ts, t, v, nil)
+}
+
+// AssembleTypedVia is AssembleTyped with a third of the composite children first built on the position's own
+// prototype (va.Prototype().NewBuilder()) and then handed over with AssignNode — the "assign an existing node
+// of the same implementation" way of making the calls, which typed assemblers serve through shortcuts.
+func AssembleTypedVia(na datamodel.NodeAssembler, ts *rs.TypeSystem, t *rs.Type, v model.Val, r *fw.RNG) error {
+	return assembleTypedR(na, ts, t, v, r)
+}
+
+func assembleTypedR(na datamodel.NodeAssembler, ts *rs.TypeSystem, t *rs.Type, v model.Val, r *fw.RNG) error {
+	child := func(va datamodel.NodeAssembler, ft *rs.Type, x model.Val) error {
+		if r != nil && (x.K == model.KMap || x.K == model.KList) && r.Chance(1, 3) {
+			var p datamodel.NodePrototype
+			if ft != nil && ft.Kind == "any" {
+				// an Any position takes a node of any implementation; its own prototype is the bindnode
+				// binding of a bare Any, which is C01's known finding (builds a node of invalid kind)
+				p = basicnode.Prototype.Any
+			} else {
+				func() {
+					defer func() { recover() }() // some assemblers have no Prototype yet ("TODO")
+					p = va.Prototype()
+				}()
+			}
+			if p != nil {
+				nb := p.NewBuilder()
+				if err := assembleTypedR(nb, ts, ft, x, r); err != nil {
+					return err
+				}
+				return va.AssignNode(nb.Build())
+			}
+		}
+		return assembleTypedR(va, ts, ft, x, r)
+	}
 	if v.K == model.KNull || t == nil {
 		return assemble(na, v)
 	}
@@ -130,11 +164,11 @@ func assembleTyped(na datamodel.NodeAssembler, ts *rs.TypeSystem, t *rs.Type, v 
 				if perr != nil {
 					return fmt.Errorf("harness: key %q is not a %s: %v", e.K, kt.Name, perr)
 				}
-				if err := assembleTyped(ma.AssembleKey(), ts, kt, ts.TypeInput(kt, kv)); err != nil {
+				if err := assembleTypedR(ma.AssembleKey(), ts, kt, ts.TypeInput(kt, kv), r); err != nil {
 					return err
 				}
 			}
-			if err := assembleTyped(ma.AssembleValue(), ts, ts.T(t.ValueType), e.V); err != nil {
+			if err := child(ma.AssembleValue(), ts.T(t.ValueType), e.V); err != nil {
 				return err
 			}
 		}
@@ -145,7 +179,7 @@ func assembleTyped(na datamodel.NodeAssembler, ts *rs.TypeSystem, t *rs.Type, v 
 			return err
 		}
 		for _, x := range v.L {
-			if err := assembleTyped(la.AssembleValue(), ts, ts.T(t.ValueType), x); err != nil {
+			if err := child(la.AssembleValue(), ts.T(t.ValueType), x); err != nil {
 				return err
 			}
 		}
@@ -166,7 +200,7 @@ func assembleTyped(na datamodel.NodeAssembler, ts *rs.TypeSystem, t *rs.Type, v 
 			if err != nil {
 				return err
 			}
-			if err := assembleTyped(va, ts, ft, e.V); err != nil {
+			if err := child(va, ft, e.V); err != nil {
 				return err
 			}
 		}
@@ -180,7 +214,7 @@ func assembleTyped(na datamodel.NodeAssembler, ts *rs.TypeSystem, t *rs.Type, v 
 		if err != nil {
 			return err
 		}
-		if err := assembleTyped(va, ts, ts.T(v.M[0].K), v.M[0].V); err != nil {
+		if err := child(va, ts.T(v.M[0].K), v.M[0].V); err != nil {
 			return err
 		}
 		return ma.Finish()
@@ -820,15 +854,49 @@ func Repr(n datamodel.Node) datamodel.Node { return repr(n) }
 // inhabitant is read with every probe on — every lookup form, both iterators, and every kind-inappropriate
 // accessor, which must answer with an error and never panic.
 func CheckWrongKind(rep Reporter, eng Engine, ts *rs.TypeSystem, t *rs.Type, tv model.Val) {
+	CheckTypedReadback(rep, eng, ts, t, tv, nil)
+}
+
+// CheckTypedReadback is CheckWrongKind with the build program drawn from rng: composite children are partly
+// built on the position's own prototype and handed over with AssignNode (C01: "by any legal way of making the
+// calls ... assigning an existing node"), and what is read back is compared with the value.
+func CheckTypedReadback(rep Reporter, eng Engine, ts *rs.TypeSystem, t *rs.Type, tv model.Val, rng *fw.RNG) {
 	typed, _ := eng.Proto(t.Name)
 	if typed == nil {
 		return
 	}
 	in := ts.TypeInput(t, tv)
 	var o Outcome
-	if hasComplexKeys(ts, t, map[string]bool{}) {
+	switch {
+	case rng != nil:
+		o = func() (out Outcome) {
+			defer func() {
+				if r := recover(); r != nil {
+					out = Outcome{Panic: fmt.Sprintf("%v\n%s", r, clip(string(debug.Stack()), 2000))}
+				}
+			}()
+			nb := typed.NewBuilder()
+			if err := AssembleTypedVia(nb, ts, t, in, rng); err != nil {
+				return Outcome{Err: err}
+			}
+			return Outcome{Accepted: true, Node: nb.Build()}
+		}()
+		if o.Panic != "" {
+			rep.Deviate("C01:typed:build-panics:"+eng.Name()+":"+t.Kind+reprName(t), fmt.Sprintf("a legal build program (children partly assigned as nodes built on the position's own prototype) panicked: %s\nengine %s, type %s, value %s", o.Panic, eng.Name(), t.Name, clip(tv.Dump(), 500)))
+			return
+		}
+		if !o.Accepted {
+			rep.Deviate("C01:typed:build-fails:"+eng.Name()+":"+t.Kind+reprName(t), fmt.Sprintf("a legal build program (children partly assigned as nodes built on the position's own prototype) failed: %v\nengine %s, type %s, value %s", o.Err, eng.Name(), t.Name, clip(tv.Dump(), 500)))
+			return
+		}
+		if got := ReadTyped(o.Node); !model.Equal(got, tv) {
+			rep.Deviate("C01:typed:readback-differs:"+eng.Name()+":"+t.Kind+reprName(t), fmt.Sprintf("%s\nbuilt (children partly assigned as nodes built on the position's own prototype) %s\nreads back %s\nengine %s, type %s", model.FirstDiff(got, tv), clip(tv.Dump(), 500), clip(got.Dump(), 500), eng.Name(), t.Name))
+			return
+		}
+		rep.Count("typed_assignnode_builds", 1)
+	case hasComplexKeys(ts, t, map[string]bool{}):
 		o = FeedTyped(typed, ts, t, in)
-	} else {
+	default:
 		o = Feed(typed, in)
 	}
 	if !o.Accepted {
